@@ -44,7 +44,7 @@ def oracle(func: str, a: Dict[str, Any]) -> Tuple[Any, Dict[str, Any]]:
     if func == "conv1d":
         Co, Cg, k = a["weight"].shape
         L = a["input"].shape[-1]
-        s, p, dl, G = a["stride"], a["padding"], a["dilation"], a["groups"]
+        s, p, dl, G = [v[0] if isinstance(v, (tuple, list)) else v for v in (a["stride"], a["padding"], a["dilation"], a["groups"])]
         Lout = sp.floor((L + 2 * p - dl * (k - 1) - 1) / s) + 1
         B = Lout * (numel(a["input"]) / (a["input"].shape[-1] * a["input"].shape[-2]))
         out = (Cg * k) ** -half  # each output sums Cg*k products
